@@ -401,14 +401,19 @@ func (w *World) ExtendTo(ctx context.Context, from string, guid protocol.GUID, c
 // ExtendWith extends ov, signing with `signer`, to the public key of `next`
 // in the encoding family of cfg.
 func ExtendWith(ov *fdo.Voucher, signer, next *KeyEntry, cfg KeyCfg) (*fdo.Voucher, error) {
+	return ExtendWithExtra(ov, signer, next, cfg, nil)
+}
+
+// ExtendWithExtra is ExtendWith with OVEExtra information.
+func ExtendWithExtra(ov *fdo.Voucher, signer, next *KeyEntry, cfg KeyCfg, extra map[int][]byte) (*fdo.Voucher, error) {
 	if cfg.Enc == protocol.X5ChainKeyEnc {
-		return fdo.ExtendVoucher(ov, signer.Key, next.Chain, nil)
+		return fdo.ExtendVoucher(ov, signer.Key, next.Chain, extra)
 	}
 	switch pub := next.Key.Public().(type) {
 	case *ecdsa.PublicKey:
-		return fdo.ExtendVoucher(ov, signer.Key, pub, nil)
+		return fdo.ExtendVoucher(ov, signer.Key, pub, extra)
 	case *rsa.PublicKey:
-		return fdo.ExtendVoucher(ov, signer.Key, pub, nil)
+		return fdo.ExtendVoucher(ov, signer.Key, pub, extra)
 	}
 	return nil, fmt.Errorf("unsupported next owner key")
 }
